@@ -317,3 +317,17 @@ CONST_OF = {
 }
 for _pid, _names in CONST_OF.items():
     PROPS[_pid]["const_checks"] = [(n,) + CONST[n] for n in _names]
+
+
+# theorems added later (Rough/Props/Extra.lean), attributed to their properties
+EXTRA = {
+    "C01": ["C01_run_sound"],
+    "C02": ["C02_grease_reorder", "C02_grease_corrupt_sig", "C02_no_nonc_rejected"],
+    "C05": ["C05_encode_decode_unbounded"],
+    "C09": ["C09_run_append"],
+    "C19": ["C09_run_append"],
+    "C17": ["C17_pipeline"],
+}
+for _pid, _ts in EXTRA.items():
+    PROPS[_pid]["extra_modules"] = ["Rough.Props.Extra"]
+    PROPS[_pid]["theorems"] = PROPS[_pid]["theorems"] + ["Rough.Props.Extra." + t for t in _ts]
